@@ -32,6 +32,15 @@ def tolerances(rng):
     return eps, rel
 
 
+def perturb_many(rng, a, eps, rel):
+    """copy of a with SEVERAL positions moved, each well inside the absolute tolerance (their sum is not)"""
+    b = list(a)
+    idx = rng.sample(range(len(b)), min(len(b), rng.randint(2, 4)))
+    for i in idx:
+        b[i] = b[i] + eps * rng.choice([0.6, 0.75, -0.7, 0.9])
+    return "many_in_abs", idx[0], b
+
+
 def perturb(rng, a, eps, rel):
     """copy of a with one position moved just inside / outside a tolerance"""
     b = list(a)
@@ -65,7 +74,8 @@ class P(Prop):
             "proved number-by-number in Coq for all inputs; kernels, Piecewise (equal / different / prefix lengths) and PolyN run "
             "bit-exactly against the crate with tolerances {0, default, 1e-9, 1e-3, 0.5, 0.9, 1e300} chosen independently for epsilon "
             "and max_relative, perturbing each single position just inside / outside each tolerance, infinities, NaN, signed zeros; every "
-            "piecewise value is also compared with itself (the same object). "
+            "piecewise value is also compared with itself (the same object); several positions moved at once, each inside the tolerance; "
+            "the default tolerances of every type. "
             "non-trivial = the two values differ in at least one number; distinct by input")
     TRUSTED = ["translator rs2coq (boolean fragment)", "transcription of approx 0.5.1's f64 AbsDiffEq / RelativeEq and slice rule"]
     ASSUMPTIONS = ["the external crate approx 0.5.1 behaves as transcribed (tied by correspondence)"]
@@ -80,7 +90,7 @@ class P(Prop):
                 a = [rng.choice([rng.uniform(-3, 3), rng.small_int(-4, 4), 1000.0, 0.0, rng.f64_loguniform(-20, 20)]) for _ in range(n)]
                 if rng.random() < 0.08:
                     a[rng.randrange(n)] = rng.choice([INF, -INF])
-                kind, i, b = perturb(rng, a, eps, rel)
+                kind, i, b = perturb(rng, a, eps, rel) if (n < 2 or rng.random() < 0.8) else perturb_many(rng, a, eps, rel)
                 out.append(dict(op="approx", ty=ty, a=[C.bits(x) for x in a], b=[C.bits(x) for x in b], eps=C.bits(eps), rel=C.bits(rel),
                                 meta={"class": "approx/" + kind}))
         for _ in range(40 if tier == "quick" else 600):
@@ -118,10 +128,12 @@ class P(Prop):
             elif shape == "longer":
                 b = b + [1.0]
             elif shape == "perturbed" and la:
-                kind, i, b = perturb(rng, b, eps, rel)
+                kind, i, b = perturb(rng, b, eps, rel) if (la < 2 or rng.random() < 0.5) else perturb_many(rng, b, eps, rel)
             out.append(dict(op="approx_polyn", a=[C.bits(x) for x in a], b=[C.bits(x) for x in b], eps=C.bits(eps), rel=C.bits(rel),
                             meta={"class": "polyn/" + shape}))
-        out.append(dict(op="approx_defaults", meta={"class": "defaults"}))
+        # the DEFAULT tolerances of every comparable type (value types, segments, piecewise of each, PolyN)
+        for ty in TYPES + ["Piecewise<%s>" % t for t in G.ALL_TYPES] + ["PolyN"]:
+            out.append(dict(op="approx_defaults", ty=ty, meta={"class": "defaults"}))
         return out
 
     def coq_term(self, case, h):
@@ -146,7 +158,7 @@ class P(Prop):
         op = case["op"]
         if op == "approx_defaults":
             if any(C.fl(b) != EPS for b in h["r"]):
-                return "default tolerances are not f64::EPSILON: %r" % [C.fl(b) for b in h["r"]]
+                return "default tolerances of %s are not those of its numbers (f64::EPSILON): %r" % (case.get("ty"), [C.fl(b) for b in h["r"]])
             return None
         eps, rel = C.fl(case["eps"]), C.fl(case["rel"])
         if op == "approx":
